@@ -3,6 +3,7 @@ package codec
 import (
 	"bytes"
 	"encoding/hex"
+	"encoding/json"
 	"fmt"
 	"reflect"
 	"testing"
@@ -218,6 +219,33 @@ func TestC01Messages(t *testing.T) {
 	rec := evid.New("C01", name, "gen.Message: reflective generator over the public KMIP types (27 operations x 2 directions + unknown operations, 9 object types, 13 key formats + wrapped/absent key values, "+
 		"50 standard + custom + unknown attributes, 3 credential types, message extensions, batches of 0..3 items) at a drawn version 1.0..1.4; "+
 		"non-trivial = contains an attribute, credential, message extension or key block, or a payload with >=2 elements; distinct by reference encoding").Attach(t)
+	if rp := evid.LoadReplay(name); rp != nil {
+		// a saved case is the reference encoder's encoding of the original message (the message itself is a Go value):
+		// decoding it and encoding the result again must give back exactly these bytes
+		var c msgCase
+		if err := json.Unmarshal(rp.Case, &c); err != nil {
+			t.Fatal(err)
+		}
+		raw, err := hex.DecodeString(c.RefHex)
+		if err != nil || len(raw) == 0 {
+			t.Fatalf("saved case has no reference encoding: %v", err)
+		}
+		var m any = &kmip.RequestMessage{}
+		if c.Kind == "response" {
+			m = &kmip.ResponseMessage{}
+		}
+		if err := safely(func() error { return ttlv.UnmarshalTTLV(append([]byte{}, raw...), m) }); err != nil {
+			t.Fatalf("VERIF-FAIL property=C01 test=%s sig=%s replay=: decoding the reference encoding of the saved message fails: %v", name, "replay-decode-fails", err)
+		}
+		var re []byte
+		if err := safely(func() error { re = ttlv.MarshalTTLV(m); return nil }); err != nil {
+			t.Fatalf("VERIF-FAIL property=C01 test=%s sig=%s replay=: %v", name, "replay-encode-panics", err)
+		}
+		if !bytes.Equal(re, raw) {
+			t.Fatalf("VERIF-FAIL property=C01 test=%s sig=%s replay=: decoding the reference encoding of the saved message and encoding it again gives %x, want %x", name, "replay-reencode-differs", re, raw)
+		}
+		return
+	}
 	rapid.Check(t, func(rt *rapid.T) {
 		var labels []string
 		o := gen.MsgOpts{Labels: func(l ...string) { labels = append(labels, l...) }}
